@@ -1,6 +1,6 @@
 ----------------------------- MODULE PQTrace -----------------------------
 (* Tr validation for PQ.tla: every recorded call of a real heap
-   (push / pop / peek / decrease_key / remove, with its result and the
+   (push / pop / peek / decrease_key / remove / clear, with its result and the
    length reported afterwards) must be a step of PQ.                   *)
 EXTENDS PQ, Json, IOUtils
 Traces == JsonDeserialize(IOEnv.TRACE_FILE)
@@ -28,6 +28,9 @@ Fail(e) ==
        IF e.id \notin Ids THEN "machinery:rem-precondition"
        ELSE IF e.len # N - 1 THEN "size-after-remove"
        ELSE IF e.truth # (e.len > 0) THEN "truth" ELSE ""
+  ELSE IF e.op = "clear" THEN
+       IF e.len # 0 THEN "size-after-clear"
+       ELSE IF e.truth # FALSE THEN "truth" ELSE ""
   ELSE IF e.op = "raise" THEN "exception"
   ELSE "machinery:unknown-op"
 Step(e) ==
@@ -36,6 +39,7 @@ Step(e) ==
   \/ e.op = "peek" /\ Peek(e.id)
   \/ e.op = "dec"  /\ DecreaseKey(e.id, e.key)
   \/ e.op = "rem"  /\ Remove(e.id)
+  \/ e.op = "clear" /\ Clear
 TraceInit == Init /\ tid \in 1..Len(Traces) /\ l = 1 /\ err = ""
 TraceNext ==
   /\ err = "" /\ l <= Len(Tr)
